@@ -65,8 +65,47 @@ def handleGen (op : String) (j : Json) : Except String Json := do
     | .error e => return Json.mkObj [("err", errJ' e)]
     | .ok ini =>
       match apply_overrides hasOptionR hasSectionR sectionKeysR removeOptionR removeSectionR addSectionR setValueR (wrap ini) (ovs.map toOv) (ads.map toOv) with
-      | .error e => return Json.mkObj [("err", match e with | .missing => "missing" | .exists => "exists" | .badValue => "badValue")]
+      | .error e => return Json.mkObj [("err", match e with | .missing => "missing" | .exists => "exists" | .badValue => "badValue" | .malformedOption => "malformedOption")]
       | .ok r => return Json.mkObj [("ini", iniJ r.state)]
+  | "tab_write" =>
+    -- the `write` methods of the tabulation objects; answer: the tokens (or "raised") and the number of chunks the destination-mode twin hands the destination
+    let which ← getStr j "which"
+    let nr ← getInt j "nr"
+    let cut ← getRat j "cut"
+    let pots ← parsePotRecs j
+    if which == "lammps" then
+      let t : TabRec := { nr := nr, cutoff := cut, potentials := pots }
+      return Json.mkObj [("toks", arrJ ((lammps_tab_write t []).map tokJ)), ("writes", natJ (lammps_tab_write_writes t []).length)]
+    else if which == "dlpoly" then
+      let t : TabRec := { nr := nr, cutoff := cut, potentials := pots }
+      return Json.mkObj [("toks", match dlpoly_tab_write t [] with | .ok r => arrJ (r.map tokJ) | .error _ => Json.str "raised"), ("writes", natJ (dlpoly_tab_write_writes t []).length)]
+    else
+      let dip ← (← getArr j "dipoles").mapM fun p => do return ({ a := ← getStr p "a", b := ← getStr p "b", fid := ← getNat p "fid" } : PotRec)
+      let quad ← (← getArr j "quadrupoles").mapM fun p => do return ({ a := ← getStr p "a", b := ← getStr p "b", fid := ← getNat p "fid" } : PotRec)
+      let e : EamTabRec := { nr := nr, cutoff := cut, nrho := ← getInt j "nrho", cutoff_rho := ← getRat j "cutrho", eam_potentials := ← parseEamRecs j, potentials := pots,
+                             dipole_potentials := dip, quadrupole_potentials := quad }
+      match which with
+      | "setfl" => return Json.mkObj [("toks", arrJ ((setfl_tab_write e []).map tokJ)), ("writes", natJ (setfl_tab_write_writes e []).length)]
+      | "setfl_fs" => return Json.mkObj [("toks", arrJ ((setfl_fs_tab_write e []).map tokJ)), ("writes", natJ (setfl_fs_tab_write_writes e []).length)]
+      | "tabeam" => return Json.mkObj [("toks", arrJ ((tabeam_tab_write e []).map tokJ)), ("writes", natJ (tabeam_tab_write_writes e []).length)]
+      | "tabeam_fs" =>
+        return Json.mkObj [("toks", match tabeam_fs_tab_write e [] with | .ok r => arrJ (r.map tokJ) | .error _ => Json.str "raised"), ("writes", natJ (tabeam_fs_tab_write_writes e []).length)]
+      | "adp" => return Json.mkObj [("toks", arrJ ((adp_tab_write e []).map tokJ)), ("writes", natJ (adp_tab_write_writes e []).length)]
+      | _ => throw s!"unknown tabulation {which}"
+  | "cli_operations" =>
+    -- _create_override_tuple / _item_id / the dictionary part of _make_config_parser; absent option kinds are `null`
+    let optLists := fun (k : String) => do
+      match j.getObjVal? k with
+      | .ok Json.null => pure (none : Option (List (List String)))
+      | .ok v => do
+        let outer ← v.getArr?
+        let ll ← outer.toList.mapM fun g => do (← g.getArr?).toList.mapM fun x => x.getStr?
+        pure (some ll)
+      | .error _ => pure none
+    let ovJ' := fun (o : OvRec) => arrJ [Json.str o.sect, Json.str o.key, match o.value with | some v => Json.str v | none => Json.null]
+    match cli_operations Atsim.norm () (← optLists "overrides") (← optLists "additional") (← optLists "removes") () () with
+    | .ok (o, a) => return Json.mkObj [("overrides", arrJ (o.map ovJ')), ("additional", arrJ (a.map ovJ'))]
+    | .error _ => return Json.str "malformedOption"
   | "tabeam" =>
     let r := tabeam_write (← getInt j "nrho") (← getRat j "drho") (← getInt j "nr") (← getRat j "dr") (← parseEamRecs j) (← parsePotRecs j) [] (← getStr j "title")
     return arrJ (r.map tokJ)
